@@ -1,7 +1,7 @@
 (* C14 - every view of a stored path tells the same story, safely.
    This file contains only the property theorems (closed by [exact] of a lemma
    proved in Proofs/), their statement pins and Print Assumptions. *)
-From LV Require Import Base.Prelude Model.PathStore Model.PathSpec Proofs.C14_PathStore.
+From LV Require Import Base.Prelude Model.PathStore Model.PathSpec Proofs.C14_PathStore Model.Polygon Proofs.C14_Polygon.
 
 (* A path built by ANY well-nested builder program, with ANY attribute count,
    read back with attribute-carrying events, yields exactly the program's
@@ -68,6 +68,27 @@ Example C14_hyp_satisfiable :
               mkSub (9,9)%Z [0;0;0]%Z [] false].
 Proof. repeat constructor. Qed.
 
+(* --- polygon views (Model/Polygon.v) --- *)
+(* random access by event id agrees with iteration, for every non-empty polygon and every id 0 .. len *)
+Theorem C14_polygon_event_is_nth : forall pts closed i,
+  pts <> [] -> (i <= length pts)%nat ->
+  nth_error (poly_events pts closed) i = Some (poly_event pts closed i).
+Proof. exact poly_event_is_nth. Qed.
+(* the id events resolved through the polygon's points are its events *)
+Theorem C14_polygon_id_events : forall pts closed, poly_id_events pts closed = poly_events pts closed.
+Proof. exact poly_id_events_are_events. Qed.
+(* an empty polygon has no event in any view *)
+Theorem C14_polygon_empty : forall closed, poly_events [] closed = [] /\ poly_id_events [] closed = [].
+Proof. exact poly_events_empty. Qed.
+(* the index comparison used before the fix (End at len - 1) is wrong on a square *)
+Theorem C14_polygon_event_old_refuted :
+  let pts := [(0, 0); (1, 0); (1, 1); (0, 1)]%Z in
+  nth_error (poly_events pts true) 3 = Some (EvLine (1, 1)%Z (0, 1)%Z) /\
+  poly_event_old pts true 3 = EvEnd (0, 1)%Z (0, 0)%Z true /\
+  poly_event pts true 3 = EvLine (1, 1)%Z (0, 1)%Z /\
+  poly_event pts true 4 = EvEnd (0, 1)%Z (0, 0)%Z true.
+Proof. exact poly_event_old_refuted. Qed.
+
 Print Assumptions C14_iter_attr_spec.
 Print Assumptions C14_iter_spec.
 Print Assumptions C14_id_iter_resolves.
@@ -77,3 +98,6 @@ Print Assumptions C14_reversed_spec.
 Print Assumptions C14_reversed_twice.
 Print Assumptions C14_first_last_endpoint.
 Print Assumptions C14_concat_spec.
+Print Assumptions C14_polygon_event_is_nth.
+Print Assumptions C14_polygon_id_events.
+Print Assumptions C14_polygon_empty.
